@@ -117,7 +117,7 @@ def gen_token(rng):
             s += ESC[b]
             data += bytes([b])
         elif r < 0.55:
-            cp = rng.choice([0x41, 0xE9, 0x20AC, 0x1F600, 0x10FFFF])
+            cp = rng.choice([0x41, 0xE9, 0x20AC, 0x1F600, 0x10FFFF, 0xD7FF, 0xE000, 0x100000, 0xFFFF, 0x10000, 0x7F, 0x80])
             digits = "%x" % cp
             # one to six digits: leading zeros up to six are part of the grammar
             s += "\\u{%s}" % (digits.rjust(rng.randrange(len(digits), 7), "0") if rng.random() < 0.4 else digits)
@@ -215,7 +215,7 @@ ILLEGAL = [("@", 110), ("#", 110), ("$", 110), ("~", 110), ("`", 110), ("?", 110
            ("\x01", 110), ("12q", 141), ("0x1g", 141), ("007", 141), ("1u7", 141), ("340282366920938463463374607431768211456", 140),
            ("0x100000000000000000000000000000000", 140), ("0b1" + "0" * 128, 140), ("0b01" + "0" * 128, 140), ("0x01" + "f" * 32, 140), ('"a\\qb"', 162), ('"\\x1"', 162), ('"\\u{}"', 162), ('"\\u{110000}"', 162),
            ('"\\u{0000041}"', 162), ('"\\u{00010FF}"', 162), ('"\\u{0000000}"', 162), ('"\\u{00000041}"', 162), ('"a\\u{0010FFFF}"', 162),
-           ("'\\u{0000041}'", 162), ("'ab'", 163), ("''", 163), ("'€'", 163), ("'\\u{41}'", 162)]
+           ("'\\u{0000041}'", 162), ('"\\u{D800}"', 162), ('"\\u{DFFF}"', 162), ('"x\\u{dabc}y"', 162), ("'ab'", 163), ("''", 163), ("'€'", 163), ("'\\u{41}'", 162)]
 
 
 def run_case(case):
